@@ -136,3 +136,34 @@ def wsgi_call(wsgi_app, env_, max_chunks=None):
 
 def origin(exc):
     return F.exc_origin(exc)
+
+
+# ---------------------------------------------------------------------------
+# loop-back spyne client: spyne's own RemoteProcedureBase with the HTTP hop replaced
+# by server_call on the same application
+def loopback_call(app, method_name, args, kwargs=None, out_header=None):
+    """-> (request bytes, Outcome of the server side, client result | raised exception)"""
+    from spyne.client import RemoteProcedureBase
+
+    class _RP(RemoteProcedureBase):
+        def __call__(self, *a, **kw):
+            self.ctx, = self.contexts
+            self.get_out_object(self.ctx, a, kw)
+            self.get_out_string(self.ctx)
+            self.request = b"".join(self.ctx.out_string)
+            self.outcome = server_call(app, self.request)
+            if self.outcome.escaped is not None:
+                raise self.outcome.escaped[0]
+            self.ctx.in_string = [self.outcome.out_bytes]
+            self.get_in_object(self.ctx)
+            if self.ctx.in_error is not None:
+                raise self.ctx.in_error
+            return self.ctx.in_object
+
+    rp = _RP("http://loopback/", app, method_name, out_header)
+    try:
+        res = rp(*args, **(kwargs or {}))
+        err = None
+    except Exception as e:      # the exception is the observation
+        res, err = None, e
+    return getattr(rp, "request", None), getattr(rp, "outcome", None), res, err
